@@ -1,5 +1,5 @@
 (* Executable entry points of the C06 model and of its specification oracles. *)
-From Verif Require Import Lib.Bytes Json.Ast Json.Parse Json.Print Event.Redact Event.VerifySig Event.RequiredSpec.
+From Verif Require Import Lib.Bytes Json.Ast Json.Parse Json.Print Event.Redact Event.RedactSpec Event.VerifySig Event.RequiredSpec.
 Open Scope N_scope.
 
 Definition nl : bytes := [10].
@@ -51,8 +51,18 @@ Definition run_verify (args : list bytes) : bytes :=
   | _ => bs "badargs"
   end.
 
+(* the bytes every request must carry: the canonical form of the SPECIFICATION's redaction of the
+   event (hand-written keep-lists of Event/RedactSpec.v, not the generated table).
+   exception = true: the specification without content.third_party_invite.signed for v11+
+   (recorded finding F17), used only to name that known difference in the failure message *)
+Definition spec_message (exception : bool) (ver : bytes) (j : json) : bytes :=
+  match spec_of_version ver, j with
+  | Some sp, JObj m => canon_print (JObj (spec_redact (if exception then without_tpi_signed sp else sp) m))
+  | _, _ => bs "?"
+  end.
+
 (* the observable the SPECIFICATION demands for a well-formed event *)
-Definition spec_observable (ver : bytes) (j : json) (verr : bool) (valid : bytes -> bool) : bytes :=
+Definition spec_observable_x (exception : bool) (ver : bytes) (j : json) (verr : bool) (valid : bytes -> bool) : bytes :=
   let req := required_spec ver j in
   let ts := s_ts j in
   verdict (negb verr && forallb valid req) ++ nl ++
@@ -60,8 +70,17 @@ Definition spec_observable (ver : bytes) (j : json) (verr : bool) (valid : bytes
   | [] => bs "asked"
   | _ => bs "asked " ++ join_bytes (bs ",") (map hex_of_bytes (needed_set req))
          ++ bs " ts=" ++ print_dec ts ++ (if required_rule_strict ver then bs " strict" else bs " lax")
-         ++ bs " msg=" ++ match redact ver j with Some m => canon_print m | None => bs "?" end
+         ++ bs " msg=" ++ spec_message exception ver j
   end.
+Definition spec_observable := spec_observable_x false.
+
+(* compare; a difference that is exactly F17 gets its own tag *)
+Definition judge (tag : bytes) (ver : bytes) (j : json) (verr : bool) (valid : bytes -> bool) (obs : bytes) : bytes :=
+  let want := spec_observable ver j verr valid in
+  if bytes_eqb obs want then bs "ok"
+  else if bytes_eqb obs (spec_observable_x true ver j verr valid)
+  then bs "FAIL-TPI-SIGNED want=" ++ want ++ bs " got=" ++ obs
+  else tag ++ bs " want=" ++ want ++ bs " got=" ++ obs.
 
 Definition lookup_consistent (j : json) (lk : bytes) : bool :=
   match sender_server j with
@@ -80,9 +99,7 @@ Definition prop_verify (args : list bytes) : bytes :=
           | None => if bytes_eqb flag (bs "wf") then bs "FAIL generator: unparsable" else bs "ok"
           | Some j =>
               if wf_event ver j && lookup_consistent j lk then
-                let want := spec_observable ver j (negb (bytes_eqb mode (bs "ok"))) (fun s => mem_bytes s valids) in
-                if bytes_eqb obs want then bs "ok"
-                else bs "FAIL want=" ++ want ++ bs " got=" ++ obs
+                judge (bs "FAIL") ver j (negb (bytes_eqb mode (bs "ok"))) (fun s => mem_bytes s valids) obs
               else if bytes_eqb flag (bs "wf") then bs "FAIL generator: event claimed well-formed is not"
               else bs "ok"
           end
@@ -218,9 +235,7 @@ Definition prop_twin (args : list bytes) : bytes :=
           match parse_json ev, parse_json twin with
           | Some j, Some jt =>
               if wf_event ver jt && lookup_consistent jt lk && content_extension jt j then
-                let want := spec_observable ver jt (negb (bytes_eqb mode (bs "ok"))) (fun s => mem_bytes s valids) in
-                if bytes_eqb obs want then bs "ok"
-                else bs "FAIL-UNKNOWN-MEMBER-MATTERS want=" ++ want ++ bs " got=" ++ obs
+                judge (bs "FAIL-UNKNOWN-MEMBER-MATTERS") ver jt (negb (bytes_eqb mode (bs "ok"))) (fun s => mem_bytes s valids) obs
               else bs "FAIL generator: not a content extension of a well-formed twin"
           | _, _ => bs "FAIL generator: unparsable"
           end
